@@ -377,7 +377,7 @@ theorem apply_inv {s s' : State} {op : Op} (h : Inv s) (ha : apply s op = some s
         rw [← hnr] at ha
         exact htx2.commit_replace h ha
   | copy src t cls =>
-    simp only [apply] at ha
+    simp only [apply, copyWith] at ha
     cases hf : findEnt s src with
     | none => rw [hf] at ha; cases ha
     | some e =>
@@ -400,7 +400,7 @@ theorem apply_inv {s s' : State} {op : Op} (h : Inv s) (ha : apply s op = some s
           simp only [] at ha
           exact (addRefs_txn htx hadd).commit_replace h ha
   | transition t cls =>
-    simp only [apply] at ha
+    simp only [apply, transitionWith] at ha
     split at ha
     · cases hf : findEnt s t with
       | none => rw [hf] at ha; cases ha
@@ -643,5 +643,265 @@ theorem moveParts_same_store {dst : SName} :
       rcases List.mem_cons.mp hn with hn | hn
       · rw [hn]
       · exact c n hn
+
+-- ---------------------------------------------------------------- part-store faults
+
+/-- A fault plan either makes the transition loop fail or leaves it exactly as without faults. -/
+theorem movePartsF_dichotomy (dst : SName) :
+    ∀ (ps : List PartRow) (flt : Option Fault) (s : State) (i : Nat),
+      movePartsF dst flt s ps i = none ∨ movePartsF dst flt s ps i = moveParts dst s ps i := by
+  intro ps
+  induction ps with
+  | nil => intro flt s i; right; simp [movePartsF, moveParts]
+  | cons r rs ih =>
+    intro flt s i
+    unfold movePartsF moveParts
+    by_cases hst : r.store = dst
+    · rw [if_pos hst, if_pos hst]
+      rcases ih flt s (i + 1) with h | h
+      · left; rw [h]
+      · right; rw [h]
+    · rw [if_neg hst, if_neg hst]
+      cases flt with
+      | none =>
+        simp only [copyPartF]
+        cases hcp : copyPart s r.store r.pid dst with
+        | none => left; rfl
+        | some res =>
+          obtain ⟨s1, p⟩ := res
+          simp only []
+          rcases ih none s1 (i + 1) with h | h
+          · left; rw [h]
+          · right; rw [h]
+      | some f =>
+        simp only [copyPartF]
+        by_cases h0 : f.step = 0
+        · rw [if_pos h0]
+          simp only []
+          by_cases hab : f.aborts = true
+          · left; rw [if_pos hab]
+          · rw [if_neg hab]
+            cases hcp : copyPart s r.store r.pid dst with
+            | none => left; rfl
+            | some res =>
+              obtain ⟨s1, p⟩ := res
+              simp only []
+              rcases ih none s1 (i + 1) with h | h
+              · left; rw [h]
+              · right; rw [h]
+        · rw [if_neg h0]
+          simp only []
+          cases hcp : copyPart s r.store r.pid dst with
+          | none => left; rfl
+          | some res =>
+            obtain ⟨s1, p⟩ := res
+            simp only []
+            rcases ih (some { f with step := f.step - 1 }) s1 (i + 1) with h | h
+            · left; rw [h]
+            · right; rw [h]
+
+theorem copyPartsF_dichotomy (dst : SName) :
+    ∀ (ps : List PartRow) (flt : Option Fault) (s : State) (i : Nat),
+      copyPartsF dst flt s ps i = none ∨ copyPartsF dst flt s ps i = copyParts dst s ps i := by
+  intro ps
+  induction ps with
+  | nil => intro flt s i; right; simp [copyPartsF, copyParts]
+  | cons r rs ih =>
+    intro flt s i
+    unfold copyPartsF copyParts
+    by_cases hst : r.store = dst
+    · rw [if_pos hst, if_pos hst]
+      rcases ih flt s (i + 1) with h | h
+      · left; rw [h]
+      · right; rw [h]
+    · rw [if_neg hst, if_neg hst]
+      cases hts : tryShare s dst r.content with
+      | mk s1 o =>
+        cases o with
+        | some q =>
+          simp only []
+          rcases ih flt s1 (i + 1) with h | h
+          · left; rw [h]
+          · right; rw [h]
+        | none =>
+          simp only []
+          cases flt with
+          | none =>
+            simp only [copyPartF]
+            cases hcp : copyPart s1 r.store r.pid dst with
+            | none => left; rfl
+            | some res =>
+              obtain ⟨s2, p⟩ := res
+              simp only []
+              rcases ih none (tryIndex s2 dst r.content p) (i + 1) with h | h
+              · left; rw [h]
+              · right; rw [h]
+          | some f =>
+            simp only [copyPartF]
+            by_cases h0 : f.step = 0
+            · rw [if_pos h0]
+              simp only []
+              by_cases hab : f.aborts = true
+              · left; rw [if_pos hab]
+              · rw [if_neg hab]
+                cases hcp : copyPart s1 r.store r.pid dst with
+                | none => left; rfl
+                | some res =>
+                  obtain ⟨s2, p⟩ := res
+                  simp only []
+                  rcases ih none (tryIndex s2 dst r.content p) (i + 1) with h | h
+                  · left; rw [h]
+                  · right; rw [h]
+            · rw [if_neg h0]
+              simp only []
+              cases hcp : copyPart s1 r.store r.pid dst with
+              | none => left; rfl
+              | some res =>
+                obtain ⟨s2, p⟩ := res
+                simp only []
+                rcases ih (some { f with step := f.step - 1 }) (tryIndex s2 dst r.content p) (i + 1) with h | h
+                · left; rw [h]
+                · right; rw [h]
+
+theorem crossCount_cons_eq (dst : SName) (r : PartRow) (rs : List PartRow) (h : r.store = dst) :
+    crossCount dst (r :: rs) = crossCount dst rs := by simp [crossCount, h]
+
+theorem crossCount_cons_ne (dst : SName) (r : PartRow) (rs : List PartRow) (h : ¬ r.store = dst) :
+    crossCount dst (r :: rs) = crossCount dst rs + 1 := by simp [crossCount, h]
+
+/-- An aborting fault at a copy step the transition reaches makes the loop fail. -/
+theorem movePartsF_abort (dst : SName) :
+    ∀ (ps : List PartRow) (f : Fault) (s : State) (i : Nat),
+      f.aborts = true → f.step < crossCount dst ps → movePartsF dst (some f) s ps i = none := by
+  intro ps
+  induction ps with
+  | nil => intro f s i _ hlt; simp [crossCount] at hlt
+  | cons r rs ih =>
+    intro f s i hab hlt
+    unfold movePartsF
+    by_cases hst : r.store = dst
+    · rw [if_pos hst]
+      rw [crossCount_cons_eq dst r rs hst] at hlt
+      rw [ih f s (i + 1) hab hlt]
+    · rw [if_neg hst]
+      rw [crossCount_cons_ne dst r rs hst] at hlt
+      simp only [copyPartF]
+      by_cases h0 : f.step = 0
+      · rw [if_pos h0, if_pos hab]
+      · rw [if_neg h0]
+        simp only []
+        cases hcp : copyPart s r.store r.pid dst with
+        | none => rfl
+        | some res =>
+          obtain ⟨s1, p⟩ := res
+          simp only []
+          have hlt' : ({ f with step := f.step - 1 } : Fault).step < crossCount dst rs := by
+            show f.step - 1 < crossCount dst rs
+            omega
+          rw [ih { f with step := f.step - 1 } s1 (i + 1) hab hlt']
+
+/-- A fault that only concerns `Close`, or a step the transition never reaches, changes nothing. -/
+theorem movePartsF_harmless (dst : SName) :
+    ∀ (ps : List PartRow) (f : Fault) (s : State) (i : Nat),
+      (f.aborts = false ∨ crossCount dst ps ≤ f.step) →
+      movePartsF dst (some f) s ps i = moveParts dst s ps i := by
+  have hnone : ∀ (ps : List PartRow) (s : State) (i : Nat), movePartsF dst none s ps i = moveParts dst s ps i := by
+    intro ps
+    induction ps with
+    | nil => intro s i; simp [movePartsF, moveParts]
+    | cons r rs ih =>
+      intro s i
+      unfold movePartsF moveParts
+      by_cases hst : r.store = dst
+      · rw [if_pos hst, if_pos hst, ih]
+      · rw [if_neg hst, if_neg hst]
+        simp only [copyPartF]
+        cases hcp : copyPart s r.store r.pid dst with
+        | none => rfl
+        | some res =>
+          obtain ⟨s1, p⟩ := res
+          simp only []
+          rw [ih]
+  intro ps
+  induction ps with
+  | nil => intro f s i _; simp [movePartsF, moveParts]
+  | cons r rs ih =>
+    intro f s i h
+    unfold movePartsF moveParts
+    by_cases hst : r.store = dst
+    · rw [if_pos hst, if_pos hst]
+      rw [crossCount_cons_eq dst r rs hst] at h
+      rw [ih f s (i + 1) h]
+    · rw [if_neg hst, if_neg hst]
+      rw [crossCount_cons_ne dst r rs hst] at h
+      simp only [copyPartF]
+      by_cases h0 : f.step = 0
+      · rw [if_pos h0]
+        simp only []
+        have hab : f.aborts = false := by
+          rcases h with h | h
+          · exact h
+          · omega
+        rw [hab]
+        simp only [Bool.false_eq_true, ↓reduceIte]
+        cases hcp : copyPart s r.store r.pid dst with
+        | none => rfl
+        | some res =>
+          obtain ⟨s1, p⟩ := res
+          simp only []
+          rw [hnone]
+      · rw [if_neg h0]
+        simp only []
+        cases hcp : copyPart s r.store r.pid dst with
+        | none => rfl
+        | some res =>
+          obtain ⟨s1, p⟩ := res
+          simp only []
+          have h' : (({ f with step := f.step - 1 } : Fault).aborts = false ∨
+              crossCount dst rs ≤ ({ f with step := f.step - 1 } : Fault).step) := by
+            rcases h with h | h
+            · left; exact h
+            · right; show crossCount dst rs ≤ f.step - 1; omega
+          rw [ih { f with step := f.step - 1 } s1 (i + 1) h']
+
+/-- Whatever the fault plan: the call fails, or it behaves exactly as without faults. -/
+theorem applyF_dichotomy (s : State) (op : Op) (flt : Option Fault) :
+    applyF s op flt = none ∨ applyF s op flt = apply s op := by
+  cases op with
+  | transition t cls =>
+    simp only [applyF, apply, transitionWith]
+    split
+    · cases hf : findEnt s t with
+      | none => left; rfl
+      | some e =>
+        simp only []
+        rcases movePartsF_dichotomy (storeFor s.cmap cls) e.parts flt s 0 with h | h
+        · left; rw [h]
+        · right; rw [h]
+    · left; rfl
+  | copy src t cls =>
+    simp only [applyF, apply, copyWith]
+    cases hf : findEnt s src with
+    | none => left; rfl
+    | some e =>
+      simp only []
+      rcases copyPartsF_dichotomy (storeFor s.cmap (effective cls)) e.parts flt s 0 with h | h
+      · left; rw [h]
+      · right; rw [h]
+  | _ => right; rfl
+
+theorem stepF_inv {s : State} (h : Inv s) (op : Op) (flt : Option Fault) : Inv (stepF s op flt).1 := by
+  unfold stepF
+  rcases applyF_dichotomy s op flt with hd | hd
+  · rw [hd]; exact h
+  · rw [hd]
+    cases ha : apply s op with
+    | none => exact h
+    | some s' => exact apply_inv h ha
+
+theorem runF_inv {s : State} (h : Inv s) (ops : List (Op × Option Fault)) : Inv (runF s ops) := by
+  induction ops generalizing s with
+  | nil => exact h
+  | cons o ops ih => exact ih (stepF_inv h o.1 o.2)
 
 end Pithos.ClassRouting
